@@ -206,3 +206,5 @@ def main(ctx):
     ctx.outside += ['JSON parsing of claims', 'cryptographic verification', 
                     'CoreDocument::resolve_method / DIDUrlQuery::matches (C04)', 'credentials nested in the presentation']
     guarded(ctx, 'presentation validation audit', 'M', lambda: run(ctx, prog))
+    import c07
+    guarded(ctx, 'presentation claims serde shape', 'M', lambda: c07.claims_serde_shape(ctx, prog, 'presentation'))
